@@ -1,18 +1,18 @@
-\* thorough (-coverage 1): one call, everything enabled
+\* thorough: two Close callers per side, held DELETE, no idle timer
 SPECIFICATION MCSpec
 CONSTANTS
   Calls = {"k1"}
-  CCl = {"c1"}
-  SCl = {"s1"}
+  CCl = {"c1", "c2"}
+  SCl = {"s1", "s2"}
   Stateless = FALSE
-  Timeout = TRUE
+  Timeout = FALSE
   Sse = TRUE
-  Nested = TRUE
-  Faults = {"cut", "net", "vanish"}
-  DelModes = {"fail", "hang", "hold"}
-  Helds = TRUE
-  Notifs = TRUE
-  Cancels = TRUE
+  Nested = FALSE
+  Faults = {}
+  DelModes = {"hold"}
+  Helds = FALSE
+  Notifs = FALSE
+  Cancels = FALSE
   AwaitHandlers = TRUE
   StopSseOnClose = TRUE
 VIEW MCView
